@@ -33,6 +33,8 @@ type fileSpec struct {
 	As string `json:"as"`
 	// Imports rewrites import paths (old -> new).
 	Imports map[string]string `json:"imports"`
+	// NoSync: only insert probes / points, leave synchronisation operations alone.
+	NoSync bool `json:"nosync"`
 }
 
 type spec struct {
@@ -316,7 +318,7 @@ func instrument(path string, src []byte, fs *fileSpec) ([]byte, error) {
 	in.insertPoints()
 
 	astutil.Apply(f, nil, func(c *astutil.Cursor) bool {
-		if in.err != nil {
+		if in.err != nil || fs.NoSync {
 			return false
 		}
 		switch n := c.Node().(type) {
